@@ -74,30 +74,20 @@ func genHistory(rng *rand.Rand, def *backendDef, caps sto.Caps, hasPreload, canR
 	}
 	add := func(o hop) { h.Ops = append(h.Ops, o) }
 	pickPresent := func() int {
-		var ks []int
-		for k := range present {
-			ks = append(ks, k)
-		}
-		if len(ks) == 0 {
+		n := len(present)
+		if n == 0 {
 			return rng.Intn(usable)
 		}
-		// deterministic order
-		min := -1
-		n := rng.Intn(len(ks))
-		for i := 0; i < usable+len(filePart)+2; i++ {
-			if present[i] {
-				min++
-				if min == n {
-					return i
-				}
-			}
-		}
+		n = rng.Intn(n)
 		for i := range h.Universe {
 			if present[i] {
-				return i
+				if n == 0 {
+					return i
+				}
+				n--
 			}
 		}
-		return ks[0]
+		return 0
 	}
 	pickAbsent := func() int {
 		for try := 0; try < 50; try++ {
@@ -168,6 +158,31 @@ func genHistory(rng *rand.Rand, def *backendDef, caps sto.Caps, hasPreload, canR
 		}
 		add(hop{Kind: "fetch", Blobs: []int{k}})
 	}
+	isPre := func(k int) bool { return hasPreload && k < usable/2 }
+	rmLower := func() {
+		for k := 0; k < usable/2; k++ {
+			if present[k] && rng.Intn(3) == 0 {
+				remove([]int{k})
+				return
+			}
+		}
+		remove([]int{pickPresent()})
+	}
+	fetchRemoved := func() {
+		for _, k := range removed {
+			if !present[k] && isPre(k) {
+				add(hop{Kind: "fetch", Blobs: []int{k}})
+				return
+			}
+		}
+		for _, k := range removed {
+			if !present[k] {
+				add(hop{Kind: "fetch", Blobs: []int{k}})
+				return
+			}
+		}
+		fetchA()
+	}
 	subf := func() {
 		k := pickPresent()
 		n := int64(len(h.Universe[k].Data))
@@ -204,11 +219,14 @@ func genHistory(rng *rand.Rand, def *backendDef, caps sto.Caps, hasPreload, canR
 	if canReopen {
 		todo = append(todo, reopen)
 	}
+	if hasPreload && caps.Remove {
+		todo = append(todo, rmLower)
+	}
 	rng.Shuffle(len(todo), func(i, j int) { todo[i], todo[j] = todo[j], todo[i] })
 	// after the removes: a re-receive and reads that meet removed blobs
-	todo = append(todo, recvAgain, fetchA, stat(60), enumAll)
+	todo = append(todo, recvAgain, fetchRemoved, stat(60), enumAll)
 	random := []gen{stat(25), stat(1), stat(7), fetchP, fetchA, subf, enumCur, rm1, recvNew, recvNew, recvAgain, recvDup, fetchP}
-	for len(todo) < nops-len(h.Ops) {
+	for len(todo) < nops-nInit {
 		i := rng.Intn(len(todo) + 1)
 		g := random[rng.Intn(len(random))]
 		todo = append(todo[:i], append([]gen{g}, todo[i:]...)...)
